@@ -252,13 +252,34 @@ def run_check(cid: str, tier: str, seed: int, jobs: int = 16, replay: str | None
     return EXIT_HELD
 
 
+def run_case_sanitized(mod: Any, case: dict[str, Any]) -> dict[str, Any]:
+    """
+    run_case plus the generic sanitizer of the closed-loop simulations: anything handed to asyncio's exception handler while the case
+    ran (an exception raised inside a callback) means that some piece of the operator broke unnoticed.
+    """
+    from kv import driver
+    del driver.ALL_LOOP_ERRORS[:]
+    r = mod.run_case(case)
+    if not getattr(mod, 'SANITIZE_LOOP_ERRORS', False):
+        return r          # only the properties that speak about the operator's health (crash-freedom, fail-fast) judge it
+    # Only what asyncio reports on the spot (an exception raised inside a callback or a protocol). 'Task exception was never retrieved' is
+    # reported when the task object is garbage-collected -- possibly cases later -- and is benign where kopf re-raises the first of several
+    # failed root tasks only; the checks that can attribute it (C09) judge it themselves.
+    bad = [le for le in driver.ALL_LOOP_ERRORS if 'xception in' in str(le.get('message'))]
+    if bad and not any(v.get('mech') == 'background-task-failed' for v in r.get('violations') or []):
+        r.setdefault('violations', []).append({'mech': 'background-task-failed', 'msg': f"asyncio's exception handler was called at t={bad[0]['t']}: "
+                                               f"{bad[0]['message']} {bad[0]['exception']} ({bad[0].get('task')})", 'witness': bad[:3]})
+    r.setdefault('cov', {})
+    return r
+
+
 def run_replay(mod: Any, path: str) -> int:
     with open(path) as f:
         data = json.load(f)
     case = data['case']
     from kv import worker
     worker.prepare(mod)
-    r = mod.run_case(dict(case, _verbose=True))
+    r = run_case_sanitized(mod, dict(case, _verbose=True))
     print(json.dumps({k: v for k, v in r.items() if k != 'trace'}, indent=1, default=str)[:20000])
     if r.get('trace'):
         print("---- trace ----")
